@@ -10,6 +10,9 @@ N6  `for x in (a, b): body` (2..4 simple elements, no break/continue/yield, x no
                                                     ->  body[x:=a]; body[x:=b]
 N7  `x = self.a.b` / `push = stack.append` bound once at function top level, attribute not re-bound in the function
                                                     ->  the attribute expression is substituted for x
+N11 `for x in chain((a,), it): body` -> body[x:=a]; for x in it: body
+N12 module-level `S = struct.Struct(F)`: S.pack/unpack/size -> struct.pack/unpack/calcsize with F
+N9  calls of package functions -> the pinned tree's calling convention per parameter (sa/callconv.json)
 N5  `a, b = v1, v2` (same length, no starred, no name of the left read on the right)
                                                     ->  `a = v1; b = v2`
 Nothing else is touched; comprehensions that build a value (`xs = [f(x) for x in ys]`) stay as they are, the rules know them.
@@ -17,6 +20,52 @@ The evaluation order of independent pure expressions may differ from the source;
 """
 import ast
 import copy
+import json
+import os
+
+
+def signatures(modules):
+    """{function or method name: parameter list (without self)} for the names that have exactly one parameter list in the package
+    (constructors are listed under their class name); *args / **kwargs functions are left out"""
+    sigs = {}
+
+    def add(name, fn, method):
+        a = fn.args
+        if a.vararg or a.kwarg or a.posonlyargs:
+            sigs.setdefault(name, set()).add(None)
+            return
+        ps = [x.arg for x in a.args]
+        static = any(isinstance(d, ast.Name) and d.id == 'staticmethod' for d in fn.decorator_list)
+        if method and not static:
+            ps = ps[1:]
+        nreq = len(ps) - len(a.defaults)
+        sigs.setdefault(name, set()).add((tuple(ps + [x.arg for x in a.kwonlyargs]), nreq))
+    for tree in modules.values():
+        for n in tree.body:
+            if isinstance(n, ast.ClassDef):
+                for m in n.body:
+                    if isinstance(m, ast.FunctionDef):
+                        add(n.name if m.name == '__init__' else m.name, m, True)
+            elif isinstance(n, ast.FunctionDef):
+                add(n.name, n, False)
+    return {k: [(list(x[0]), x[1]) for x in v] for k, v in sigs.items() if None not in v}
+
+
+def pick_signature(cands, call):
+    """the parameter list of the callee of `call` among the homonyms: the only one that accepts this call shape"""
+    ok = []
+    for ps, nreq in cands:
+        kws = [k.arg for k in call.keywords]
+        given = set(ps[:len(call.args)]) | set(kws)
+        if len(call.args) + len(kws) <= len(ps) and all(k in ps for k in kws) and not any(k in ps[:len(call.args)] for k in kws) \
+                and all(p_ in given for p_ in ps[:nreq]):
+            ok.append(ps)
+    return ok[0] if len(ok) == 1 else None
+
+
+def load_callconv():
+    p = os.path.join(os.path.dirname(os.path.abspath(__file__)), 'callconv.json')
+    return json.load(open(p)) if os.path.exists(p) else {}
 
 
 def _loc(new, old):
@@ -53,12 +102,83 @@ class Normalizer:
         self.counter = 0
 
     def run(self):
+        self.inline_struct_objects()
+        self.canonical_calls()
         for mod, tree in self.modules.items():
             for fn in [n for n in ast.walk(tree) if isinstance(n, (ast.FunctionDef, ast.AsyncFunctionDef))]:
                 self.inline_generator_names(fn)
                 self.inline_attribute_aliases(fn)
             self.rewrite_blocks(tree)
         return self
+
+    # ------------------------------------------------------------------ N12
+    def inline_struct_objects(self):
+        """module-level `S = struct.Struct(F)`: S.pack(...) / S.unpack(d) / S.size are struct.pack(F, ...) / struct.unpack(F, d) /
+        struct.calcsize(F)"""
+        for mod, tree in self.modules.items():
+            objs = {}
+            for n in tree.body:
+                if isinstance(n, ast.Assign) and len(n.targets) == 1 and isinstance(n.targets[0], ast.Name) and isinstance(n.value, ast.Call) \
+                        and ast.unparse(n.value.func) == 'struct.Struct' and len(n.value.args) == 1:
+                    objs[n.targets[0].id] = n.value.args[0]
+            if not objs:
+                continue
+            for par in ast.walk(tree):
+                for field, val in ast.iter_fields(par):
+                    vals = val if isinstance(val, list) else [val]
+                    for i, x in enumerate(vals):
+                        new = None
+                        if isinstance(x, ast.Call) and isinstance(x.func, ast.Attribute) and isinstance(x.func.value, ast.Name) and x.func.value.id in objs \
+                                and x.func.attr in ('pack', 'unpack', 'unpack_from', 'pack_into'):
+                            new = ast.Call(func=ast.Attribute(value=ast.Name(id='struct', ctx=ast.Load()), attr=x.func.attr, ctx=ast.Load()),
+                                           args=[copy.deepcopy(objs[x.func.value.id])] + x.args, keywords=x.keywords)
+                        elif isinstance(x, ast.Attribute) and isinstance(x.value, ast.Name) and x.value.id in objs and x.attr == 'size' and isinstance(x.ctx, ast.Load):
+                            new = ast.Call(func=ast.Attribute(value=ast.Name(id='struct', ctx=ast.Load()), attr='calcsize', ctx=ast.Load()),
+                                           args=[copy.deepcopy(objs[x.value.id])], keywords=[])
+                        if new is not None:
+                            new = _loc(new, x)
+                            if isinstance(val, list):
+                                val[i] = new
+                            else:
+                                setattr(par, field, new)
+                            self.changes += 1
+
+    # ------------------------------------------------------------------ N9
+    def canonical_calls(self):
+        """calls of package functions are rewritten to the calling convention of the pinned tree (callconv.json): a parameter
+        the pinned tree always passes by keyword is passed by keyword, one it always passes by position is passed by position"""
+        conv = load_callconv()
+        if not conv:
+            return
+        sig = signatures(self.modules)
+        for tree in self.modules.values():
+            for c in ast.walk(tree):
+                if not isinstance(c, ast.Call):
+                    continue
+                name = c.func.attr if isinstance(c.func, ast.Attribute) else (c.func.id if isinstance(c.func, ast.Name) else None)
+                if name not in sig or name not in conv or any(isinstance(a, ast.Starred) for a in c.args) or any(k.arg is None for k in c.keywords):
+                    continue
+                params, cv = pick_signature(sig[name], c), conv[name]
+                if params is None:
+                    continue
+                changed = False
+                # trailing positional arguments whose convention is keyword
+                while c.args and cv.get(params[len(c.args) - 1]) == 'kw':
+                    a = c.args.pop()
+                    c.keywords.insert(0, ast.keyword(arg=params[len(c.args)], value=a))
+                    changed = True
+                # leading keyword arguments whose convention is positional
+                while len(c.args) < len(params) and cv.get(params[len(c.args)]) == 'pos':
+                    k = [k_ for k_ in c.keywords if k_.arg == params[len(c.args)]]
+                    if not k:
+                        break
+                    c.keywords.remove(k[0])
+                    c.args.append(k[0].value)
+                    changed = True
+                if changed:
+                    # keywords in parameter order
+                    c.keywords.sort(key=lambda k_: params.index(k_.arg))
+                    self.changes += 1
 
     # ------------------------------------------------------------------ N3
     def inline_generator_names(self, fn):
@@ -227,6 +347,20 @@ class Normalizer:
                     body = [_loc(ast.If(test=c_, body=body, orelse=[]), s)]
                 return [_loc(ast.For(target=s.target, iter=gen.iter, body=body, orelse=[], type_comment=None), s)]
             return _comp_to_loop(g.generators, [_loc(bind, s)] + s.body, s)
+        # N11: `for x in chain((a,), it): body` (body without break/continue) -> x = a; body; for x in it: body
+        if isinstance(s, ast.For) and isinstance(s.iter, ast.Call) and not s.orelse and isinstance(s.target, ast.Name) \
+                and ast.unparse(s.iter.func) in ('chain', 'itertools.chain') and len(s.iter.args) == 2 and not s.iter.keywords \
+                and isinstance(s.iter.args[0], (ast.Tuple, ast.List)) and 1 <= len(s.iter.args[0].elts) <= 2 \
+                and all(isinstance(e, (ast.Name, ast.Attribute)) for e in s.iter.args[0].elts):
+            inner = [x for b in s.body for x in ast.walk(b)]
+            if not any(isinstance(x, (ast.Break, ast.Continue, ast.Yield, ast.YieldFrom)) for x in inner) \
+                    and not any(isinstance(x, ast.Name) and x.id == s.target.id and isinstance(x.ctx, (ast.Store, ast.Del)) for x in inner):
+                out = []
+                for e in s.iter.args[0].elts:
+                    sub = _Subst(s.target.id, e)
+                    out += [sub.visit(copy.deepcopy(b)) for b in s.body]
+                out.append(_loc(ast.For(target=s.target, iter=s.iter.args[1], body=s.body, orelse=[], type_comment=None), s))
+                return out
         # N6: a loop over a literal tuple/list of 2..4 simple expressions, body without break/continue and without re-binding the
         # loop variable, is the body repeated for each element
         if isinstance(s, ast.For) and isinstance(s.iter, (ast.Tuple, ast.List)) and 2 <= len(s.iter.elts) <= 4 and not s.orelse \
